@@ -1144,6 +1144,30 @@ pub fn check(case: &Case, ctx: &mut Ctx) {
     // ---- closure: every reached state is valid for every other replica
     for r in 0..n {
         sim.verify_closure(ctx, r, "end of schedule");
+        // ... in particular for a replica that holds nothing yet and learns the state through a merge
+        // (what a node does with a register fetched through replication): the union IS the reached state,
+        // so the count-limit either-zone of merges between two diverged replicas does not apply
+        if sim.reps[r].real.verify().is_ok() {
+            for verified in [true, false] {
+                let mut fresh = w.idn.fresh();
+                let res = if verified { fresh.verified_merge(&sim.reps[r].real) } else { fresh.merge(&sim.reps[r].real) };
+                match res {
+                    Ok(()) => {
+                        if fresh.ops() != sim.reps[r].real.ops() {
+                            ctx.fail("merge_not_union", format!("an empty replica merged the reached state of replica {r} ({} entries) and holds {} entries", sim.reps[r].real.ops().len(), fresh.ops().len()));
+                        }
+                    }
+                    Err(e) => {
+                        ctx.label("reached_state_refused_by_empty_replica");
+                        ctx.fail(
+                            format!("closure_empty_replica_refuses_reached_state:{}", err_name(&e)),
+                            format!("replica {r} reached a state of {} entries through accepted operations and merges, verify() accepts it, yet a replica holding nothing refuses to {} it: {e}", sim.reps[r].real.ops().len(), if verified { "verified_merge" } else { "merge" }),
+                        );
+                    }
+                }
+            }
+            ctx.label_if(sim.reps[r].real.ops().len() >= COUNT_LIMIT, "reached_state_at_count_limit_offered_to_empty_replica");
+        }
         let other = (r + 1) % n;
         let mut recv = sim.reps[other].real.clone();
         let before = recv.clone();
